@@ -93,6 +93,7 @@ type funcRun struct {
 	isInit bool
 	tokenWg Term
 	entryHeld Term
+	entryArrays map[string]Term
 }
 
 type siteInfo struct {
@@ -319,9 +320,9 @@ func (c *Ctx) addSpecFile(sf *SpecFile, p *packages.Package) error {
 			c.LemmaPkg["ghost:"+g.Name] = p
 		}
 	}
-	if p == nil {
-		c.Axioms = append(c.Axioms, sf.Axioms...)
-	}
+	// axioms: assumed facts about dependencies (extern specs) or definitions of ghost
+	// functions (contract files); each is evaluated where its identifiers resolve
+	c.Axioms = append(c.Axioms, sf.Axioms...)
 	for _, l := range sf.Lemmas {
 		c.Lemmas = append(c.Lemmas, l)
 		if p != nil {
